@@ -12,6 +12,8 @@ pub mod process;
 pub mod program;
 pub mod types;
 pub mod value;
+#[cfg(feature = "verif")]
+pub mod verif;
 
 pub use binary::{BinaryData, MAX_BINARY_SIZE};
 pub use builtins::BuiltinResult;
